@@ -242,14 +242,14 @@ Definition s_solve_qmr (self_ : (sparse A)) (b_ : (list (T A))) (x_ : (list (T A
                                         then (Ok (inr (x_, (IErr resid_))))
                                         else (let y_tld_ := y_ in
                                              let z_tld_ := z_ in
-                                             let* (p_, q_) := if (1 <? i_)%nat
-                                                 then (let* q9 := div (mul xi_ delta_) ep_ in
+                                             let* (p_, q_) := if (i_ <=? 1)%nat
+                                                 then (let p_ := y_tld_ in
+                                                      let q_ := z_tld_ in
+                                                      Ok (p_, q_))
+                                                 else (let* q9 := div (mul xi_ delta_) ep_ in
                                                       let* p_ := vsub y_tld_ (vscale_l q9 p_) in
                                                       let* q11 := div (mul rho_ delta_) ep_ in
                                                       let* q_ := vsub z_tld_ (vscale_l q11 q_) in
-                                                      Ok (p_, q_))
-                                                 else (let p_ := y_tld_ in
-                                                      let q_ := z_tld_ in
                                                       Ok (p_, q_)) in
                                              let* p_tld_ := sp_mul self_ p_ in
                                              let* ep_ := dot q_ p_tld_ in
@@ -273,12 +273,12 @@ Definition s_solve_qmr (self_ : (sparse A)) (b_ : (list (T A))) (x_ : (list (T A
                                                        if (eqb gamma_ (@zero A))
                                                        then (Ok (inr (x_, (IErr resid_))))
                                                        else (let* eta_ := div (mul (mul (mul (neg eta_) rho_1_) gamma_) gamma_) (mul (mul beta_ gamma_1_) gamma_1_) in
-                                                            let* (d_, s_) := if (1 <? i_)%nat
-                                                                then (let* d_ := vadd (vscale_l eta_ p_) (vscale_l (mul (mul (mul theta_1_ theta_1_) gamma_) gamma_) d_) in
-                                                                     let* s_ := vadd (vscale_l eta_ p_tld_) (vscale_l (mul (mul (mul theta_1_ theta_1_) gamma_) gamma_) s_) in
-                                                                     Ok (d_, s_))
-                                                                else (let d_ := (vscale_l eta_ p_) in
+                                                            let* (d_, s_) := if (i_ <=? 1)%nat
+                                                                then (let d_ := (vscale_l eta_ p_) in
                                                                      let s_ := (vscale_l eta_ p_tld_) in
+                                                                     Ok (d_, s_))
+                                                                else (let* d_ := vadd (vscale_l eta_ p_) (vscale_l (mul (mul (mul theta_1_ theta_1_) gamma_) gamma_) d_) in
+                                                                     let* s_ := vadd (vscale_l eta_ p_tld_) (vscale_l (mul (mul (mul theta_1_ theta_1_) gamma_) gamma_) s_) in
                                                                      Ok (d_, s_)) in
                                                             let* x_ := vadd_assign x_ d_ in
                                                             let* r_ := vsub_assign r_ s_ in
